@@ -1,5 +1,6 @@
 """C03 — a proof is accepted only for the exact statement and bytes it was made for.
 Structural clauses decided (see DESIGN.md §4 C03)."""
+import re
 from ..core import norm, callee, walk, mir_callee, AnchorMissing, short, pat_bindings
 from ..engines import mustcall as mc, reach, hirq
 from .. import tables
@@ -320,8 +321,8 @@ def r5_trailing_bytes(ck, w):
     ck.floor('C03.R5', 'proof-transcript owners calling prepare', len(set(owners)), 2)
     for nid in sorted(set(owners)):
         b = w.mir_body(nid)
-        if nid in tables.C03_PREPARE_OWNER_EXEMPT:
-            ck.ok('C03.R5', f'exempt:{nid}', tables.C03_PREPARE_OWNER_EXEMPT[nid], nontrivial=False)
+        if re.sub(r'\{closure#\d+\}', '{closure}', nid) in tables.C03_PREPARE_OWNER_EXEMPT:
+            ck.ok('C03.R5', f'exempt:{nid}', tables.C03_PREPARE_OWNER_EXEMPT[re.sub(r'\{closure#\d+\}', '{closure}', nid)], nontrivial=False)
             continue
         res = mc.calls_after(b, lambda c, t: c == prep, lambda c, t: c.endswith('::assert_empty'))
         ck.record('C03.R5', f'assert_empty-after-prepare:{nid}', bool(res) and all(ok for _, _, ok in res),
@@ -329,7 +330,7 @@ def r5_trailing_bytes(ck, w):
                   f'{nid}: a success path after prepare() returns without assert_empty(): trailing proof bytes are accepted', reach.loc(b))
     # the transcript whose emptiness is asserted must be the one handed to prepare() (HIR: same local)
     for nid in sorted(set(owners)):
-        if nid in tables.C03_PREPARE_OWNER_EXEMPT:
+        if re.sub(r'\{closure#\d+\}', '{closure}', nid) in tables.C03_PREPARE_OWNER_EXEMPT:
             continue
         f = w.fn(reach.parent_fn(nid))
         scope = f['body']
@@ -364,7 +365,8 @@ def r6_pi_count(ck, w):
     ck.rule('C03.R6', 'GUARD: in zk_stdlib::verify and in the per-member closure of batch_verify, a conditional on '
                       'pi.len() vs vk.nb_public_inputs with an Err arm dominates the call that verifies/prepares')
     cases = [('midnight_zk_stdlib::verify', lambda c: c.endswith('BlstPLONK::verify')),
-             ('midnight_zk_stdlib::batch_verify::{closure#0}', lambda c: c == 'midnight_proofs::plonk::verifier::prepare')]
+             (w.closure_calling('midnight_zk_stdlib::batch_verify', lambda c: c == 'midnight_proofs::plonk::verifier::prepare'),
+              lambda c: c == 'midnight_proofs::plonk::verifier::prepare')]
     for nid, target in cases:
         b = w.mir_body(nid)
         tg = mc.call_blocks(b, lambda c, t: target(c))
